@@ -477,6 +477,23 @@ def rule_arg_names(ctx: Ctx, rels: List[str]) -> None:
                 sites += 1
                 bad = [(i, a) for i, a in enumerate(args) if a is not None and a in ps and i < len(ps) and ps[i] != a
                        and ps.index(a) < len(args) and args[ps.index(a)] in ps and args[ps.index(a)] != a]
+                # one argument spelled exactly like a *different* parameter of the callee, in a position whose own parameter name is not
+                # passed anywhere else in the call (f(a, b, seed, 1000) for def f(a, b, trial_count, seed))
+                if len(bad) < 2:
+                    kw_names = {k.arg for k in c.keywords}
+                    for i, a in enumerate(raw):
+                        if a is None or i >= len(ps):
+                            continue
+                        ca = _canon(a)
+                        if ca in pcanon and pcanon.index(ca) != i and ps[pcanon.index(ca)] not in kw_names and pcanon.index(ca) < len(c.args) \
+                                and not (raw[pcanon.index(ca)] is not None and _canon(raw[pcanon.index(ca)]) == ca) and _canon(ps[i]) not in {_canon(r) for r in raw if r}:
+                            hits += 1
+                            ctx.touch(m, fn)
+                            ctx.fail("arg.names-swapped", m, c,
+                                     f"{qualname(fn)} calls `{short(c, 70)}`, but {name} is declared as ({', '.join(ps[:6])}): `{a}` is passed in the position of "
+                                     f"`{ps[i]}`, and the position of `{ps[pcanon.index(ca)]}` receives `{short(c.args[pcanon.index(ca)], 30)}`", func=qualname(fn),
+                                     construct=f"{qualname(fn)}: {name}() argument {a} in the position of {ps[i]}")
+                            break
                 if len(bad) >= 2:
                     hits += 1
                     ctx.touch(m, fn)
